@@ -12,8 +12,9 @@
 
    Rust types: Token.value : i64 (here Z), Uuid (here N), Shard = u32 (here N; i32 in the
    payload, here Z), datacenter : Option<String> (here option N, the harness uses "dc<N>"),
-   HashMap / HashSet arguments are association lists / lists (first match wins; the harness
-   only builds maps with unique keys), Arc<Node> identity (Arc::ptr_eq) is equality of the
+   HashMap / HashSet arguments are association lists / lists, first match wins (the harness
+   builds the maps first-entry-wins, also from lists with duplicate hosts; keyspace lists have
+   unique names), Arc<Node> identity (Arc::ptr_eq) is equality of the
    [node] record: the harness gives every Node object a distinct (host, gen, dc) triple.
    A Rust panic (Vec::drain with start > end) is the result [None]; C15_no_panic proves it
    never happens. *)
@@ -127,8 +128,8 @@ Definition update_stale (rec : list node) (t : tablet) : tablet :=
   mkTablet (t_first t) (t_last t) (mkReps a' (if upd then group_dc a' else pd)) (t_failed t).
 
 (* slice::partition_point on a partitioned slice: number of leading elements satisfying p
-   (C15_partitioned proves the slices are partitioned, C15_bsearch that the binary search of
-   the standard library then returns this number) *)
+   (C15_partitioned proves the slices are partitioned, C15_bsearch that [bsearch] below, a hand
+   transcription of the NIGHTLY core::slice::binary_search_by, then returns this number) *)
 Fixpoint take_while {A} (p : A -> bool) (l : list A) : list A :=
   match l with
   | [] => []
@@ -136,8 +137,9 @@ Fixpoint take_while {A} (p : A -> bool) (l : list A) : list A :=
   end.
 Definition partition_point {A} (p : A -> bool) (l : list A) : nat := List.length (take_while p l).
 
-(* the binary search slice::partition_point actually runs (core::slice, `binary_search_by`
-   style): invariant lo <= answer <= lo + size *)
+(* hand transcription of core::slice::binary_search_by as slice::partition_point calls it, from the
+   NIGHTLY rust-src (the build uses stable 1.95, whose sources are not installed); not used by the
+   tie.  Invariant lo <= answer <= lo + size *)
 Fixpoint bsearch {A} (fuel : nat) (p : A -> bool) (l : list A) (lo size : nat) : nat :=
   match fuel with
   | O => lo
